@@ -318,7 +318,7 @@ CLAIMED = {
              "at the first non-EAGAIN answer with its errno (C13_resolve_sync_terminates). Tie: unit_tconnect (real tconnect.c, "
              "scripted kernel/timers, kernel-faithful bind, dead-stack local address under ASan) vs the model incl. the trace of "
              "environment calls; sys_dns: the whole library against a scripted DNS responder and accepting/refusing/ignoring "
-             "loopback listeners, checked against the property's oracle (address, errno, local address, elapsed time).",
+             "loopback listeners, checked against the property's oracle (address, errno, local address, elapsed time). The layers that turn deadlines into wake-ups are modelled and proved too: TimerMgr (timer_mgr.c: for every history of schedule/cancel/ack/reschedule the timerfd is armed exactly at the earliest live deadline, ids are never reused, a cancel removes exactly the timer named - timer_inv_run, ids_never_reused, cancel_exact) and DnsQuery (xcm_dns_cares.c composed with TimerMgr: for every behaviour of c-ares no call aborts or dereferences a missing timer, dns.timeout fails the query with ENOENT at the first process call after the deadline and not before, a completed query never changes - dns_inv_run, C13_dns_timeout_enoent, C13_dns_no_early_timeout, C13_dns_completed_sticky, C13_dns_deadline_value); tie: unit_timer and unit_dnsq (the real timer_mgr.c / xcm_dns_cares.c with scripted clock and c-ares, recorded timerfd_settime and xpoll calls, K-timerfd probed on the real kernel).",
         note="Found and fixed here: F-13a (resolve_sync never ended on failure), F-13b (dangling local address), F-13c (re-bind). "
              "Happy Eyeballs at the level of the tconnect instance: one track per address family, each confined to its family's descriptor "
              "(C13_happy_one_track_per_family), and a failure is reported only when every track has failed - a track still connecting "
@@ -338,7 +338,7 @@ CLAIMED = {
              "what the transports request: btcp/ux/server update tables (condition 0 -> nothing, RECEIVABLE -> EPOLLIN only, "
              "terminal states ring the bell). Tie: unit_xpoll runs the real xpoll.c/active_fd.c on the real kernel (epoll, "
              "eventfd, pipes) against the model incl. measured readability; exhaustive update tables on the real transports; "
-             "sys_quiet measures the property itself on live connections of all seven transports.",
+             "sys_quiet measures the property itself on live connections of all seven transports. Timers: the timerfd is readable only while a live timer is due and disarmed when none is live, for every history (C16_timer_quiet, C16_no_timers_quiet, C16_wakeup_confirmed on the TimerMgr model; C16_dns_quiet on DnsQuery); tie: unit_timer, unit_dnsq.",
         note="'one stable descriptor' has no theorem (the model has no field that could change); it is sampled on the "
              "implementation after every operation. The composition 'idle framing/TLS connection => the lower transport's "
              "condition is 0' is proved for tcp/tls framing by tcp_update (C04 file) and for btls by the C16_btls_* theorems on the "
@@ -359,7 +359,7 @@ CLAIMED = {
              "return at the first success after any number of refusals each followed by a wake-up (msgBsend_returns, "
              "socketFinish_returns, C04_blocking_send_returns). Tie: the unit correspondences of these models, plus sys_loop: "
              "two applications following the documented protocol to the letter on all seven transports while send()/recv() "
-             "below XCM and OpenSSL return EAGAIN/short counts at random, with a stall watchdog; the blocking forms in threads.",
+             "below XCM and OpenSSL return EAGAIN/short counts at random, with a stall watchdog; the blocking forms in threads. Deadlines: an expired live timer makes the timerfd readable for every history of the timer manager (C04_expired_timer_wakes on the TimerMgr model of timer_mgr.c), the overall DNS deadline is a live timer while a query is in progress and a completed query rings (C04_dns_deadline_wakes, C04_dns_completion_rings on the DnsQuery model of xcm_dns_cares.c); tie: unit_timer, unit_dnsq.",
         note="proof-partial: (1) liveness over real time needs K-epoll and K-progress (assumptions) and is measured by sys_loop "
              "(watchdog 4 s / 40 s), not proved; (2) the per-layer invariants are composed along the tcp stack for the pending-flush wake-up "
              "(C04_tcp_stack_wakeup: framing + btcp + xpoll: buffered message and writable kernel socket => readable descriptor) and along "
